@@ -184,7 +184,7 @@ type PStep struct {
 }
 
 func NewMachine(L *Loaded, H *Harness, pool *WorkPool) (*Machine, error) {
-	s, err := NewSolver(H.Solver, time.Duration(atoiDef(H.Opts["qtimeout"], 30))*time.Second)
+	s, err := NewSolver(H.Solver, time.Duration(atoiDef(H.Opts["qtimeout"], 10))*time.Second)
 	if err != nil {
 		return nil, err
 	}
@@ -294,6 +294,7 @@ func (m *Machine) decide(k int, cond func(i int) *Term) int {
 				node.feas[i] = 1
 				nfeas++
 				m.inconclusive(fmt.Sprintf("solver unknown on branch feasibility at %s (%s)", m.curSite, m.solver.LastErr))
+				m.solverUnknown()
 			}
 		}
 		// delegate extra alternatives to idle workers
@@ -446,6 +447,12 @@ func (m *Machine) cachedAux() (uint64, bool) {
 		return node.aux, true
 	}
 	return 0, false
+}
+
+func (m *Machine) solverUnknown() {
+	if m.pool != nil && m.pool.noteUnknown() {
+		panic(&pathEnd{"aborted"})
+	}
 }
 
 func (m *Machine) inconclusive(why string) {
